@@ -70,6 +70,10 @@ extern "C" void sym_body()
               "reported evaluation counts do not exceed the evaluations performed");
     SYM_CHECK(static_cast<long>(f.xs.size()) <= evals + 1100 + 8 * n, "evaluations performed <= max_evals + one outer iteration's worth");
 
+    // a run that reports `max_iters` must have exhausted its evaluation budget (otherwise it stopped for another reason and
+    // owes the caller `converged` or `failed`): bounded necessary condition of the "always reports converged" clauses
+    if (cfgi("budget", 0) && st == solver_status::max_iters)
+        SYM_CHECK(static_cast<long>(f.xs.size() + static_cast<size_t>(f.gcount)) >= evals, "status max_iters only when the evaluation budget is exhausted");
     const long k = f.find(state.x());
     if (st != solver_status::failed || k >= 0)
     {
